@@ -39,57 +39,8 @@ def vdig(f):
     return H.digest([f['class'], f['op'], f['cid'], f['k']])
 
 
-def _closure(prog, k):
-    names = {st['r']: i for i, st in enumerate(prog)}
-    seen, todo = set(), [k]
-
-    def refs(v):
-        if isinstance(v, dict):
-            if '$' in v:
-                yield v['$']
-            for w in v.values():
-                yield from refs(w)
-        elif isinstance(v, list):
-            for w in v:
-                yield from refs(w)
-    while todo:
-        i = todo.pop()
-        if i in seen:
-            continue
-        seen.add(i)
-        for n in refs([prog[i].get('a', []), prog[i].get('kw', {})]):
-            if n in names:
-                todo.append(names[n])
-    return seen
-
-
-def _drop_steps(job, cid, drop):
-    """remove steps (indices) of client cid, renumbering layout keys and order"""
-    j = copy.deepcopy(job)
-    prog = j['clients'][cid]
-    keep = [i for i in range(len(prog)) if i not in drop]
-    remap = {old: new for new, old in enumerate(keep)}
-    j['clients'][cid] = [prog[i] for i in keep]
-    lay = {}
-    for key, kind in (j.get('layout') or {}).items():
-        c, kk, a = key.split(':')
-        if c != cid:
-            lay[key] = kind
-        elif int(kk) in remap:
-            lay['%s:%d:%s' % (c, remap[int(kk)], a)] = kind
-    j['layout'] = lay
-    # rebuild order: remove the matching occurrences
-    cnt = 0
-    order = []
-    for c in j['order']:
-        if c == cid:
-            if cnt in remap:
-                order.append(c)
-            cnt += 1
-        else:
-            order.append(c)
-    j['order'] = order
-    return j, remap
+_closure = c20._closure
+_drop_steps = c20._drop_steps
 
 
 def minimise(pool, lane, job, fd, budget_s=40):
